@@ -6,6 +6,7 @@ import (
 	"fmt"
 	"go/token"
 	"go/types"
+	"regexp"
 	"sort"
 	"strings"
 
@@ -577,6 +578,7 @@ func runEmissionLoop(p *Program, c *Collector, ls LoopSpec) {
 	}
 	bad := ""
 	badPos := ""
+	cursor := ""
 	for _, loop := range loops {
 		h := loopHeader(loop)
 		for b := range loop {
@@ -599,11 +601,40 @@ func runEmissionLoop(p *Program, c *Collector, ls LoopSpec) {
 				}
 				bad = "the loop is left early (break/return at " + pos + "): the remaining elements, and any accumulated output not returned there, are dropped"
 				badPos = pos
+				// an exit that tests a package-level cursor is identified together with the conditions under which the
+				// function moves that cursor: a change of those is a different violation than the one on record
+				if len(b.Instrs) > 0 {
+					if iff, ok := b.Instrs[len(b.Instrs)-1].(*ssa.If); ok {
+						if cmp, ok := iff.Cond.(*ssa.BinOp); ok {
+							g := loadedGlobal(cmp.X)
+							if g == nil {
+								g = loadedGlobal(cmp.Y)
+							}
+							if g != nil && p.Own[g.Pkg.Pkg] {
+								sf := newSymFn(p, fn, 0)
+								sf.inlineOK = func(*ssa.Function) bool { return false }
+								var conds []string
+								for _, b2 := range fn.Blocks {
+									for _, in := range b2.Instrs {
+										if st, ok := in.(*ssa.Store); ok && st.Addr == ssa.Value(g) {
+											var cj []*Sym
+											conjuncts(sf.pathCond(b2), &cj)
+											conds = append(conds, regexp.MustCompile(`v[A-Za-z]+_\d+`).ReplaceAllString(cj[len(cj)-1].String(), "elem"))
+										}
+									}
+								}
+								sort.Strings(conds)
+								cursor = " exit on " + g.Name() + ", set when " + clip(strings.Join(conds, " | "), 200)
+							}
+						}
+					}
+				}
 			}
 		}
 	}
 	key := "loop:" + ls.Func
 	if bad != "" {
+		key += cursor
 		c.Ob(ls.Props, "E6.emission-loop", key, Violated, ls.What+": "+bad, badPos, false)
 	} else {
 		c.Ob(ls.Props, "E6.emission-loop", key, Discharged, fmt.Sprintf("%s: %d loop(s), each left only when its collection is exhausted", ls.What, len(loops)), p.FuncPos(fn), true)
